@@ -318,7 +318,7 @@ def c16_check(tier, replay=None):
                 ("sync", "late", 1, (0, 4), "0.1" + NOWM),
                 # logic races behind locks need a preemption inside a short window and then a
                 # long undisturbed run of another thread: low rate, many seeds
-                ("sync", "pool", 2, (0, 10), "0.02"),
+                ("sync", "pool", 2, (0, 10), "0.1"),
                 ("sync", "pool", 2, (10, 20), "0.02"),
                 ("sync", "general", 3, (0, 5), "0.1"),
                 # expressions compiled once and searched by every thread, in the same order, dozens of times
